@@ -55,7 +55,7 @@ def run(ctx, configs=CONFIGS, judge_fn=None, what="error detail off/on", prop_fi
     native.build()
     known, _ = load_known(ctx.prop)
     N = int(os.environ.get("VERIF_PROG_N", "3" if ctx.quick else "4"))
-    count = int(os.environ.get("VERIF_PROG_COUNT", "400" if ctx.quick else "3000"))
+    count = int(os.environ.get("VERIF_PROG_COUNT", "600" if ctx.quick else "3000"))
     trees = gen_trees(ctx.seed, count, 3 if ctx.quick else 4)
     t0 = time.time()
     res = par.pmap(c03.explore_program, [(P, t, N, configs, False) for t in trees], NCPU)
